@@ -18,7 +18,7 @@ import (
 func init() {
 	core.Register(&core.Prop{
 		ID: "C11",
-		Rule: "case = one insert/delete history (50-2000 operations built from phases: grow, drain to empty, refill, oscillate around split/underflow sizes, delete in insertion / reverse / random order, absent-object deletes) on a tree with branching parameters drawn from all valid (min,max), 2<=min<=max/2, max<=16; objects are *Bounds pointers, Point values (duplicates equal) and a harness pointer type, on a small integer grid (coincident and touching boxes frequent) or floats; " +
+		Rule: "case = one insert/delete history (50-2000 operations built from phases: grow, drain to empty, refill, oscillate around split/underflow sizes, delete in insertion / reverse / random order, absent-object deletes) on a tree with branching parameters drawn from all valid (min,max), 2<=min<=max/2, max<=16; objects are *Bounds pointers, Point values (duplicates equal) and a harness pointer type, on a small integer grid (coincident and touching boxes frequent) or floats; 15% of histories draw most objects from a palette of 1..5 boxes (whole nodes of coincident entries), half of those with fan-outs 17..100; " +
 			"after EVERY operation a brute-force multiset model is compared (Size, Delete result, 6 SearchIntersect queries incl. degenerate/touching/empty/whole-space) and the hooked node structure is walked (all leaves at one depth, Depth() equals it, every entry box == exact envelope of its subtree, fan-out <= max, leaf entries carry objects, objects in leaves == Size); " +
 			"an evaluation is one operation judged; non-trivial = history in which the walker observed a root collapse (height decrease); distinct by history hash",
 		Assumptions: []string{"objects are comparable (pointers, points, boxes) as the property states", "parent-link and level consistency are recorded, not judged (not stated by the property)"},
@@ -82,6 +82,7 @@ type hist struct {
 	removed []stored // previously deleted objects (for absent deletes)
 	failed  bool
 	nn      bool
+	palette []geom.Bounds // when non-empty most new objects take one of these few boxes
 }
 
 func (h *hist) coord() float64 {
@@ -104,6 +105,11 @@ func (h *hist) newObj() stored {
 		}
 	}
 	b := geom.Bounds{Min: geom.Point{X: x0, Y: y0}, Max: geom.Point{X: x0 + w, Y: y0 + ht}}
+	if len(h.palette) > 0 && r.Chance(0.8) {
+		// many coincident objects: whole nodes full of equal boxes
+		b = h.palette[r.Intn(len(h.palette))]
+		x0, y0 = b.Min.X, b.Min.Y
+	}
 	switch r.Intn(3) {
 	case 0:
 		bb := b
@@ -425,9 +431,22 @@ func runHistory(c *core.Ctx, idx int, nn bool) {
 	if r.Chance(0.4) {
 		pp = paramPairs[r.Intn(6)] // small fan-outs make deep trees
 	} else if r.Chance(0.1) {
-		pp = [][2]int{{25, 50}, {2, 64}, {32, 64}, {3, 100}}[r.Intn(4)] // large fan-outs (route uses 25/50)
+		pp = [][2]int{{25, 50}, {2, 64}, {32, 64}, {3, 100}, {16, 33}, {2, 40}, {10, 32}, {8, 17}}[r.Intn(8)] // large fan-outs (route uses 25/50)
 	}
 	h := &hist{c: c, r: r, min: pp[0], max: pp[1], float: r.Chance(0.3), hash: core.NewHasher(), nn: nn}
+	if r.Chance(0.15) {
+		// few distinct boxes (1..5) shared by most objects
+		np := r.IntRange(1, 5)
+		for i := 0; i < np; i++ {
+			h.palette = append(h.palette, h.newObj().box)
+		}
+		h.nextID = 0
+		c.Count("hist.palette_of_few_boxes")
+		if r.Bool() {
+			pp = [][2]int{{25, 50}, {2, 64}, {32, 64}, {3, 100}, {16, 33}, {2, 40}, {10, 32}, {8, 17}}[r.Intn(8)]
+			h.min, h.max = pp[0], pp[1]
+		}
+	}
 	h.tree = rtree.NewTree(h.min, h.max)
 	h.hash.Int(h.min).Int(h.max)
 	c.Count(fmt.Sprintf("params.%d_%d", h.min, h.max))
